@@ -37,11 +37,16 @@ func vfI5(a, b bool) bool { return !a || b }
 func VfC05Read() {
 	conn := &vfConn{readsLeft: vf.Param("reads")}
 	link, b := vfLinkFor(conn, true)
+	win0 := link.encSession.VfSeqSnap()
 	f, err := link.readFrame(b)
 	netErr := err != nil && errors.Is(err, ErrNetworkReadError)
 	dataLen := int(conn.first[0])<<8 | int(conn.first[1])
 	if !netErr && conn.total >= 2 && dataLen > 3 {
 		vf.Assert(conn.total == dataLen, "consumed-not-announced-length")
+	}
+	// unauthenticated bytes never move the replay window
+	if len(vf.Opens) == 0 || !vf.Opens[0].OK {
+		vf.Assert(link.encSession.VfSeqSnap() == win0, "replay-window-moved-without-authentication")
 	}
 	if err == nil {
 		vf.Assert(f != nil, "nil-frame-without-error")
